@@ -148,6 +148,8 @@ def main_wrapper(fn, prop):
     ap.add_argument("--tier", default=os.environ.get("VERIF_TIER", "quick"), choices=["quick", "thorough"])
     ap.add_argument("--replay", default=None)
     a = ap.parse_args(sys.argv[2:] if len(sys.argv) > 1 and sys.argv[1] == prop else sys.argv[1:])
+    if a.replay:
+        return replay(prop, a.replay)
     run = Run(prop, a.tier)
     run.replay = a.replay
     try:
@@ -157,3 +159,30 @@ def main_wrapper(fn, prop):
         print(f"MACHINERY-FAILURE property={prop}", flush=True)
         return 2
     return run.finish()
+
+
+def replay(prop, path):
+    """./check <ID> --replay <file>: show a recorded violation and, where the check provides a
+    `replay_case(detail)` function, re-execute the recorded path + call on the real code.
+    Does not touch the evidence file.  Exit 1 if the violation reproduces (or cannot be re-executed), 0 if it no longer occurs."""
+    import importlib
+
+    p = Path(path)
+    if not p.is_absolute():
+        p = VERIF / p
+    detail = json.loads(p.read_text())
+    print(f"replay property={prop} key={detail.get('key')} what={detail.get('what')}")
+    for k in ("from", "act", "args", "path", "allowed", "observed", "model", "transform", "mismatches", "event", "case"):
+        if k in detail:
+            print(f"  {k}: {json.dumps(detail[k], default=repr)[:1200]}")
+    try:
+        mod = importlib.import_module(f"check_{prop}")
+    except Exception:
+        mod = sys.modules.get("__main__")
+    fn = getattr(mod, "replay_case", None) or getattr(sys.modules.get("__main__"), "replay_case", None)
+    if fn is None:
+        print("  (no re-execution hook for this check: the recorded case above is the counterexample)")
+        return 1
+    again = fn(detail)
+    print("  re-executed:", json.dumps(again, default=repr)[:1500])
+    return 1 if again.get("reproduced", True) else 0
